@@ -170,6 +170,40 @@ Proof.
   apply (C20_rejected_request_no_effect nv_mods t 0 (Some s_verbose) (LStr s_off)) with (s := s_verbose); reflexivity.
 Qed.
 
+(* C20_activation_requests_do_not_touch_logging: a history in which both connections are subscribed and activation
+   requests of both (with / without specifier) are interleaved with logging requests and records; the table is not
+   empty, messages are sent; the fourth clause with a continuation containing activation requests of the subscribed
+   connection 0 itself AND a disconnect, an ident and a logging request of connection 1 *)
+Definition nv_act_hist : list op :=
+  [OLogging 0 (Some mA) (LStr s_debug); OActivate 0 None; OLogging 1 None (LStr s_warning); ODeactivate 0 (Some mA);
+   OEmit mA 30%Z s_warning; ODeactivate 0 None; OActivate 1 (Some mB); OEmit mA 20%Z s_info].
+Definition nv_act_later : list op :=
+  [ODeactivate 0 None; OLogging 1 None (LStr s_off); OActivate 0 (Some mB); ODisconnect 1; OEmit mB 40%Z s_error;
+   OIdent 1; ODeactivate 1 None].
+Example C20_activation_requests_do_not_touch_logging_applies :
+  without_activation nv_act_hist =
+    [OLogging 0 (Some mA) (LStr s_debug); OLogging 1 None (LStr s_warning); OEmit mA 30%Z s_warning; OEmit mA 20%Z s_info] /\
+  run nv_mods nv_act_hist = run nv_mods (without_activation nv_act_hist) /\
+  run nv_mods nv_act_hist = [(mA, [(0, 10%Z); (1, 30%Z)]); (mB, [(1, 30%Z)])] /\
+  trace_from nv_mods [] nv_act_hist = trace_from nv_mods [] (without_activation nv_act_hist) /\
+  trace_from nv_mods [] nv_act_hist = [(0, mA, s_warning); (1, mA, s_warning); (0, mA, s_info)] /\
+  run nv_mods (nv_before ++ [ODeactivate 0 None; OActivate 1 None] ++ nv_after) = run nv_mods (nv_before ++ nv_after) /\
+  chosen (run nv_mods (nv_act_hist ++ nv_act_later)) mA 0 = Some 10%Z /\
+  In (0, mA, record_name 20%Z s_info) (handle (run nv_mods (nv_act_hist ++ nv_act_later)) mA 20%Z s_info) /\
+  chosen (run nv_mods (nv_act_hist ++ nv_act_later)) mA 1 = None.
+Proof.
+  destruct (C20_activation_requests_do_not_touch_logging nv_mods) as (_ & F & I & S).
+  destruct (F nv_act_hist) as (F1 & F2 & _ & _).
+  split; [vm_compute; reflexivity|]. split; [exact F1|]. split; [vm_compute; reflexivity|].
+  split; [exact F2|]. split; [vm_compute; reflexivity|].
+  split; [apply I; reflexivity|].
+  assert (forall o, In o nv_act_later -> is_activation o = true \/ by_conn 0 o = false) as A.
+  { intros o H. simpl in H.
+    repeat (destruct H as [H|H]; [subst o; first [left; reflexivity|right; reflexivity]|]). destruct H. }
+  destruct (S nv_act_hist nv_act_later mA 0 10%Z) as [S1 S2]; [vm_compute; reflexivity|exact A|].
+  split; [exact S1|]. split; [apply S2; lia|]. vm_compute. reflexivity.
+Qed.
+
 (* ------------------------------------------------------------------ concurrent layer *)
 (* four threads on two modules: thread 0 closes connection 0 (no lock), thread 1 serves connection 1 (three requests
    under the lock), thread 2 is a module thread emitting two records, thread 3 serves connection 2 (an IDN request and a logging
@@ -540,6 +574,7 @@ Print Assumptions C20_internal_module_can_be_enabled_applies.
 Print Assumptions C20_exported_only_same_applies.
 Print Assumptions C20_others_unaffected_applies.
 Print Assumptions C20_rejected_request_no_effect_applies.
+Print Assumptions C20_activation_requests_do_not_touch_logging_applies.
 Print Assumptions nv_schedule_facts.
 Print Assumptions C20_routing_linearizable_applies.
 Print Assumptions C20_routing_linearizable_applies_midway.
